@@ -174,6 +174,52 @@ theorem addSpec_declares : ∀ (order : List (Nat × Nat)) (A B : List HTree) (n
           subst h
           exact hfun _ (by simp) b (by simp [hb']) hk
 
+/-- Every declaration of the result was there before or comes from `order` (and then its prefix
+    was not declared before). -/
+theorem addSpec_decls_sub : ∀ (order : List (Nat × Nat)) (A B : List HTree) (n : Nat),
+    (∀ x ∈ A, (x.value.category == Category.namespace) = true) →
+    (∀ y, B.head? = some y → (y.value.category == Category.namespace) = false) →
+    ∀ b ∈ declsOfKids (addSpec (A ++ B) n order).1,
+      b ∈ A.filterMap (fun k => nsPair k.value) ∨
+      (b ∈ order ∧ ∀ x ∈ A.filterMap (fun k => nsPair k.value), x.1 ≠ b.1)
+  | [], A, B, n, hA, hB => by
+    intro b hb
+    simp only [addSpec] at hb
+    rw [declsOfKids_split A B hA hB] at hb
+    exact Or.inl hb
+  | (p, ns) :: rest, A, B, n, hA, hB => by
+    obtain ⟨ht, hd⟩ := takeWhile_split (fun c : HTree => c.value.category == .namespace) A B hA hB
+    intro b hb
+    simp only [addSpec] at hb
+    rw [ht, hd] at hb
+    by_cases hs : (A.find? (fun c => Forest.entryKey c.value == p)).isSome = true
+    · rw [if_pos hs] at hb
+      rcases addSpec_decls_sub rest A B n hA hB b hb with h | ⟨h1, h2⟩
+      · exact Or.inl h
+      · exact Or.inr ⟨by simp [h1], h2⟩
+    · rw [if_neg hs] at hb
+      have hA' : ∀ x ∈ A ++ [HTree.node n (.namespace p ns) []],
+          (x.value.category == Category.namespace) = true := by
+        intro x hx
+        rcases List.mem_append.mp hx with h | h
+        · exact hA x h
+        · simp at h; subst h; rfl
+      have e : (A ++ [HTree.node n (.namespace p ns) []]).filterMap (fun k => nsPair k.value) =
+          A.filterMap (fun k => nsPair k.value) ++ [(p, ns)] := by
+        simp [List.filterMap_append, nsPair, HTree.value]
+      have hnokey : ∀ x ∈ A.filterMap (fun k => nsPair k.value), x.1 ≠ p := by
+        intro x hx e'
+        exact hs ((find_key_iff A hA p).mpr ⟨x, hx, e'⟩)
+      rcases addSpec_decls_sub rest (A ++ [.node n (.namespace p ns) []]) B (n + 1) hA' hB b hb with h | ⟨h1, h2⟩
+      · rw [e] at h
+        rcases List.mem_append.mp h with h' | h'
+        · exact Or.inl h'
+        · simp only [List.mem_singleton] at h'
+          subst h'
+          exact Or.inr ⟨by simp, hnokey⟩
+      · rw [e] at h2
+        exact Or.inr ⟨by simp [h1], fun x hx => h2 x (by simp [hx])⟩
+
 /-! #### attributes and writability do not see the new declaration leaves -/
 
 theorem attrs_eq (t : Tree) : t.attrs = t.attributeNodes.filterMap (fun k => match k.value with
